@@ -32,7 +32,14 @@ func (p *Prog) entryPoints() []*ssa.Function {
 		}
 		if r := fn.Signature.Recv(); r != nil {
 			if n, ok := types.Unalias(derefType(r.Type())).(*types.Named); ok && !n.Obj().Exported() {
-				continue
+				// ... unless a library calls it through an interface: the decoder finds UnmarshalJSON on the type
+				// of a manifest field, fmt finds String and Error
+				switch fn.Name() {
+				case "UnmarshalJSON", "MarshalJSON", "UnmarshalText", "MarshalText", "String", "Error":
+					// (the methods sort calls get indexes below Len: not entry points for arbitrary input)
+				default:
+					continue
+				}
 			}
 		}
 		out = append(out, fn)
